@@ -38,7 +38,7 @@ class Ctx:
         if isinstance(F, str):
             F = self.E.func(F)
         G = guards(self)
-        stopset = set(G.all) | {G.replay}
+        stopset = G.opaque
         stopq = set(stop)
         cls = F.cls
 
